@@ -163,18 +163,51 @@ var zzC0102Qtypes = map[string]uint16{
 
 // ------------------------------------------------------------- concretisation
 
-func zzC0102HostText(h zzC0102Host) (s string) {
+func zzC0102HostText(h zzC0102Host, sfx string) (s string) {
 	if h.IsIP {
 		return zzC0102Addrs[h.N[0]]
 	}
 
-	return strings.Join(h.N, ".")
+	return zzC0102Name(h.N, sfx)
+}
+
+// zzC0102Plain are the labels rendered as they are: top-level domains and the
+// labels of the real blocked services.
+var zzC0102Plain = map[string]bool{
+	"com": true, "org": true, "net": true, "example": true,
+	"4chan": true, "4cdn": true, "4channel": true, "9gag": true, "9cache": true,
+}
+
+// zzC0102Name renders abstract labels in lower case.  Every other label gets
+// the server's decoration sfx appended: a seeded pair of letters, the same
+// for all labels of one server (the renaming is injective, "xa" stays a
+// look-alike of "a"), so that across a run names are spelled with every
+// letter of the alphabet -- and, once the letter case is mixed, with every
+// upper-case letter.
+func zzC0102Name(labels []string, sfx string) (s string) {
+	out := make([]string, len(labels))
+	for i, l := range labels {
+		if zzC0102Plain[l] {
+			out[i] = l
+		} else {
+			out[i] = l + sfx
+		}
+	}
+
+	return strings.Join(out, ".")
+}
+
+// zzC0102Sfx draws a server's label decoration.
+func zzC0102Sfx(rng *rand.Rand) (sfx string) {
+	const letters = "abcdefghijklmnopqrstuvwxyz"
+
+	return string([]byte{letters[rng.Intn(26)], letters[rng.Intn(26)]})
 }
 
 // zzC0102RuleText renders one abstract rule as a filter-list line.  Rule
 // texts are lower case (DESIGN.md section 4: only the request side varies).
-func zzC0102RuleText(r *zzC0102Rule, rng *rand.Rand, wildStyle int) (line string) {
-	n := zzC0102HostText(r.Tgt)
+func zzC0102RuleText(r *zzC0102Rule, rng *rand.Rand, wildStyle int, sfx string) (line string) {
+	n := zzC0102HostText(r.Tgt, sfx)
 	if r.Kind == "hosts" {
 		if r.IP == "null4" && rng.Intn(2) == 0 {
 			return n
@@ -242,7 +275,7 @@ func zzC0102RuleText(r *zzC0102Rule, rng *rand.Rand, wildStyle int) (line string
 	if len(r.Da) > 0 {
 		ds := make([]string, len(r.Da))
 		for i, d := range r.Da {
-			ds[i] = strings.Join(d, ".")
+			ds[i] = zzC0102Name(d, sfx)
 		}
 
 		mods = append(mods, "denyallow="+strings.Join(ds, "|"))
@@ -260,10 +293,14 @@ func zzC0102RuleText(r *zzC0102Rule, rng *rand.Rand, wildStyle int) (line string
 	return b.String()
 }
 
-// zzC0102MixCase returns the FQDN of labels with seeded letter case.
-func zzC0102MixCase(labels []string, rng *rand.Rand) (fqdn string) {
-	s := []byte(strings.Join(labels, ".") + ".")
-	if rng.Intn(3) != 0 {
+// zzC0102MixCase returns the FQDN of labels with seeded letter case: all lower
+// case, all upper case, or every letter on its own.
+func zzC0102MixCase(labels []string, rng *rand.Rand, sfx string) (fqdn string) {
+	s := []byte(zzC0102Name(labels, sfx) + ".")
+	switch k := rng.Intn(6); {
+	case k == 0:
+		return strings.ToUpper(string(s))
+	case k >= 3:
 		for i, c := range s {
 			if c >= 'a' && c <= 'z' && rng.Intn(2) == 0 {
 				s[i] = c - 'a' + 'A'
@@ -328,16 +365,20 @@ func zzC0102Hdr(name string, t uint16) (h dns.RR_Header) {
 // zzC0102RRs renders an abstract answer section for the question name.  Every
 // record is owned by its explicit owner name (empty = the question name), in
 // exactly the given order.
-func zzC0102RRs(qname string, ans []zzC0102RR) (rrs []dns.RR) {
+//
+// The names on the answer side (CNAME targets, owners other than the question
+// name) get a seeded letter case of their own: a resolver may hand back any
+// spelling, and matching must not depend on it.
+func zzC0102RRs(qname string, ans []zzC0102RR, rng *rand.Rand, sfx string) (rrs []dns.RR) {
 	for _, a := range ans {
 		owner := qname
 		if len(a.O) > 0 {
-			owner = strings.Join(a.O, ".") + "."
+			owner = zzC0102MixCase(a.O, rng, sfx)
 		}
 
 		switch a.T {
 		case "CNAME":
-			tgt := strings.Join(a.N, ".") + "."
+			tgt := zzC0102MixCase(a.N, rng, sfx)
 			rrs = append(rrs, &dns.CNAME{Hdr: zzC0102Hdr(owner, dns.TypeCNAME), Target: tgt})
 		case "A":
 			rrs = append(rrs, &dns.A{Hdr: zzC0102Hdr(owner, dns.TypeA), A: net.ParseIP(zzC0102Addrs[a.A]).To4()})
@@ -407,7 +448,9 @@ type zzC0102Srv struct {
 	// ops is the log of reconfiguration operations, for diagnostics.
 	ops       []string
 	wildStyle int
-	reqID     uint64
+	// sfx is the decoration of this server's labels (zzC0102Name).
+	sfx   string
+	reqID uint64
 	// ruleText keeps the rendering of every abstract rule for the life of the
 	// server: a list that gets the same rules again gets the same bytes.
 	ruleText map[string]string
@@ -416,6 +459,9 @@ type zzC0102Srv struct {
 	pFlag     bool
 	pDeadline string
 	faultGen  int
+	// inFlight: a pause has run out and the server's write-back of
+	// "protection on" is held in flight (see expireInFlight).
+	inFlight bool
 	// protOff is true while the server itself reports that protection is not
 	// in effect although the configuration walked to says "on" (the one case
 	// the statement leaves open: the flag set through the DNS configuration
@@ -501,7 +547,7 @@ func (z *zzC0102Srv) render(cfg *zzC0102Cfg, rng *rand.Rand, split bool) (byKey 
 		key := zzC0102JSON(rk)
 		t, ok := z.ruleText[key]
 		if !ok {
-			t = zzC0102RuleText(r, rng, z.wildStyle)
+			t = zzC0102RuleText(r, rng, z.wildStyle, z.sfx)
 			z.ruleText[key] = t
 		}
 		z.texts[r.Place] = append(z.texts[r.Place], t)
@@ -535,6 +581,7 @@ func zzC0102Build(cfg *zzC0102Cfg, dir string, rng *rand.Rand) (z *zzC0102Srv, e
 	z = &zzC0102Srv{
 		cfg: cfg, dir: dir, lists: map[string]*zzC0102List{}, handlers: map[string]http.HandlerFunc{},
 		asked: map[string]bool{}, wildStyle: rng.Intn(3), ruleText: map[string]string{},
+		sfx: zzC0102Sfx(rng),
 		// Request ids of the requests handed to the handler directly; far from
 		// the ids the proxy gives to the requests of the UDP sample (the
 		// ClientID of a request is kept by request id).
@@ -921,9 +968,30 @@ func (z *zzC0102Srv) setProt(want, cur string, rng *rand.Rand) (err error) {
 	}
 
 	z.protOff = false
+	if z.inFlight {
+		// DnsPipeline!WriteBack: the write-back held since the step before
+		// completes; protection is on, no deadline.
+		if err = z.writeBack(); err != nil {
+			return err
+		}
+		if cur == "expired" {
+			cur = "on"
+		}
+	}
+
 	detour := rng.Intn(4) == 0
 	if want == cur && !detour && !(want == "on" && z.pDeadline == "future") {
 		return nil
+	}
+
+	if (want == "on" && rng.Intn(6) == 0) || (want == "expired" && rng.Intn(2) == 0) {
+		// DnsPipeline!PauseExpires: by way of a pause that runs out, with the
+		// write-back still in flight while this step's questions are asked.
+		if err = protAPI(false, 1); err != nil {
+			return err
+		}
+
+		return z.expireInFlight()
 	}
 
 	if detour && (want == "on" || want == "off") {
@@ -975,6 +1043,30 @@ func (z *zzC0102Srv) setProt(want, cur string, rng *rand.Rand) (err error) {
 	}
 
 	return nil
+}
+
+// expireInFlight realises the state "the pause has run out, an earlier request
+// has started the goroutine that writes 'protection on' back, and it has not
+// finished yet": the server marks that state with protectionUpdateInProgress,
+// which is set here the way the package's own tests pin the window.  Protection
+// is ON in this state (the deadline has passed).
+func (z *zzC0102Srv) expireInFlight() (err error) {
+	time.Sleep(4 * time.Millisecond)
+	z.s.protectionUpdateInProgress.Store(true)
+	z.inFlight = true
+	z.pFlag, z.pDeadline = false, "past"
+	z.ops = append(z.ops, "(pause ran out; write-back of 'protection on' in flight)")
+
+	return nil
+}
+
+// writeBack lets the held write-back happen.
+func (z *zzC0102Srv) writeBack() (err error) {
+	z.s.protectionUpdateInProgress.Store(false)
+	z.inFlight = false
+	z.ops = append(z.ops, "(write-back completes)")
+
+	return z.awaitReenabled()
 }
 
 // awaitReenabled waits until the server has switched protection back on after
@@ -1119,7 +1211,9 @@ type zzC0102Obs struct {
 // query sends one request through handleDNSRequest.  ans is the abstract
 // answer the upstream gives if asked.
 func (z *zzC0102Srv) query(req *zzC0102Req, ans []zzC0102RR, rng *rand.Rand, viaUDP string) (o zzC0102Obs) {
-	qname := zzC0102MixCase(req.Name, rng)
+	qname := zzC0102MixCase(req.Name, rng, z.sfx)
+	// the concrete answer section the upstream gives for this question
+	upRRs := zzC0102RRs(qname, ans, rng, z.sfx)
 	qt := zzC0102Qtypes[req.Qtype]
 	m := &dns.Msg{}
 	m.SetQuestion(qname, qt)
@@ -1127,7 +1221,14 @@ func (z *zzC0102Srv) query(req *zzC0102Req, ans []zzC0102RR, rng *rand.Rand, via
 
 	z.up.mu.Lock()
 	z.up.calls, z.up.last = nil, nil
-	z.up.answer = func(r *dns.Msg) (rrs []dns.RR) { return zzC0102RRs(r.Question[0].Name, ans) }
+	z.up.answer = func(_ *dns.Msg) (rrs []dns.RR) {
+		rrs = make([]dns.RR, len(upRRs))
+		for i, rr := range upRRs {
+			rrs[i] = dns.Copy(rr)
+		}
+
+		return rrs
+	}
 	z.up.mu.Unlock()
 	z.ql.last = nil
 
@@ -1171,7 +1272,7 @@ func (z *zzC0102Srv) query(req *zzC0102Req, ans []zzC0102RR, rng *rand.Rand, via
 	if req.Cid != "" {
 		o.Concrete += " DoT ClientID " + req.Cid
 	}
-	o.Out = z.abs(qname, qt, res, herr, zzC0102RRs(qname, ans))
+	o.Out = z.abs(qname, qt, res, herr, upRRs)
 	if res != nil {
 		o.Concrete += fmt.Sprintf(" -> rcode=%s answer=%q ns=%d", dns.RcodeToString[res.Rcode], zzC0102Strs(res.Answer), len(res.Ns))
 	}
